@@ -39,8 +39,14 @@ THEOREMS = [
     "Params.described_parameter_row", "Params.typed_parameter_row", "Params.type_field_shown", "Params.type_of_self_old_counterexample",
     "Params.lookup_dictSet", "Params.paramsDict_lookup",
     "Attrs.var_text_held", "Attrs.type_text_held", "Attrs.shownType_own",
+    "Napoleon.getMinIndent_le", "Napoleon.dedent_removes_only_space", "Property.inherited_holds_all_partial",
+    "Property.inherited_holds_all_counterexample",
 ]
 PARTIAL = {
+    "Property.inherited_holds_all_partial":
+        "hypothesis: the base property's docstring has its own description. Documented by `@return:` only, `_handlePropertyDef` empties "
+        "`attr.docstring` and an override without docstring inherits nothing (`inherited_holds_all_counterexample`, open finding "
+        "inherited-property:return-only-docstring-not-inherited).",
     "Docstring.every_tag_rendered_or_reported_partial":
         "hypothesis `inScope`: a `type` field with a name in a module/class docstring names a variable that is assigned or "
         "documented by ivar/cvar/var — otherwise the type goes to an Attribute without kind that is never displayed (open "
@@ -830,7 +836,9 @@ class DocGen:
             if self.rng.random() < 0.3:
                 # descriptions that start with punctuation a separator-stripper could eat
                 fld["lead"] = self.rng.choice(["-1", "--verbose", ":-)", "::", "-x", ":", "-0.5"])
-            if k in ("note", "see", "todo", "custom", "return", "raise") and self.rng.random() < 0.15:
+            if self.rng.random() < 0.12:
+                fld["aligned"] = True
+            if k in ("note", "see", "todo", "custom", "return", "raise", "param", "keyword") and self.rng.random() < 0.18:
                 # the field's first paragraph wraps, ends with `::`, a literal block and one more paragraph follow
                 fld["literal"] = self.block_lines()
                 fld["after"] = self.inlines(1, 4)
@@ -857,8 +865,10 @@ class DocGen:
                "field_perm": self.rng.randrange(1 << 30) if self.rng.random() < 0.4 else None,
                # reST consolidated fields (`:Parameters:` + bullet or definition list) instead of one field per entry
                "consolidated": self.rng.choice([None, None, "bullet:", "bullet-", "deflist"])}
+        if owner in ("property", "function", "variable") and self.rng.random() < 0.3:
+            doc["inherit"] = True        # written on a base class member, rendered for the override that has no docstring
         if owner == "variable":
-            doc["var_level"] = self.rng.choice(["module", "class", "instance"])
+            doc["var_level"] = "class" if doc.get("inherit") else self.rng.choice(["module", "class", "instance"])
             doc["var_type"] = self.rng.choice(["int", "str", None])
         if owner == "property" and self.rng.random() < 0.5:
             doc["return_tag"] = "returns"          # `@returns:` / `:returns:` instead of `@return:` / `:return:`
@@ -1246,8 +1256,37 @@ class Ser:
                         lines.append(f["type"] or "object")
                         e["type"] = f["type"] or "object"
                         lines.extend(self.wrap(f["body"], "    ", "    ", w, no_colon=True))
-                else:
+                elif f.get("literal") and kind in ("param", "keyword", "raise"):
+                    # the description starts on the `name:` line (google) / below the name (numpy), ends with `::`, a literal
+                    # block indented DEEPER than the continuation lines follows, then prose back at the continuation indent
+                    lit = [l.rstrip() for l in f["literal"]]
                     if g:
+                        head = "    " + f["arg"] + (" (%s)" % f["type"] if f["type"] else "") + ": "
+                        ci = "        "
+                        w2: List[str] = []
+                        lines.extend(self.wrap(list(f["body"]) + [("w", "shown")], head, ci, w2, width=300, suffix="::", no_colon=True))
+                    else:
+                        lines.append(f["arg"] if kind == "raise" else f["arg"] + (" : " + f["type"] if f["type"] else ""))
+                        ci = "    "
+                        w2 = []
+                        lines.extend(self.wrap(list(f["body"]) + [("w", "shown")], ci, ci, w2, width=300, suffix="::", no_colon=True))
+                    w.extend(w2[:-1] + ["shown:"])
+                    lines.append("")
+                    lines.extend((ci + "    " + l) if l else "" for l in lit)
+                    lines.append("")
+                    w.extend("\n".join(lit).split())
+                    lines.extend(self.wrap([("w", "Larger")] + list(f["after"]), ci, ci, w, no_colon=True))
+                    lines.append("")
+                    self.flags.add("napoleon-field-literal-then-prose")
+                else:
+                    if g and f.get("aligned") and len(f["body"]) >= 2:
+                        # second line aligned under the text of the first (deeper), later lines at the regular indent
+                        head = "    " + f["arg"] + (" (%s)" % f["type"] if f["type"] else "") + ": "
+                        lines.extend(self.wrap(f["body"][:1], head, "", w, width=300, no_colon=True))
+                        lines.extend(self.wrap([("w", "aligned")] + list(f["body"][1:]), " " * len(head), "", w, width=300, no_colon=True))
+                        lines.extend(self.wrap(W("Larger", "values", "are", "slower"), "        ", "        ", w, no_colon=True))
+                        self.flags.add("google-field-aligned-second-line")
+                    elif g:
                         head = "    " + f["arg"] + (" (%s)" % f["type"] if f["type"] else "") + ": "
                         lines.extend(self.wrap(f["body"], head, "        ", w, no_colon=True))
                     else:
@@ -1296,8 +1335,9 @@ class Ser:
         return {"docstring": "\n".join(lines), "out": out, "fields": fexp, "var_type": self.var_type}
 
 
-def module_source(owner: str, docstring: str, var_level: str = "module") -> Tuple[str, str]:
-    """python source of module `m` carrying the docstring on the chosen owner; returns (source, owner full name)"""
+def module_source(owner: str, docstring: str, var_level: str = "module", inherit: bool = False) -> Tuple[str, str]:
+    """python source of module `m` carrying the docstring on the chosen owner; returns (source, owner full name).
+    `inherit`: the docstring is written on a base class member; the object rendered is the override without docstring"""
     def lit(ind):
         body = "\n".join((" " * ind + l) if l else "" for l in docstring.split("\n"))
         assert '"""' not in docstring
@@ -1306,6 +1346,15 @@ def module_source(owner: str, docstring: str, var_level: str = "module") -> Tupl
     other = "def f(a, b=1, *args, **kw):\n    pass\nclass K:\n    def __init__(self, a, b=2):\n        pass\n    def meth(self):\n        pass\nx = 1\n"
     if owner == "module":
         return lit(0) + other, "m"
+    if inherit and owner == "property":
+        return other + "class BP:\n    @property\n    def prop(self):\n" + lit(8) + "        return 1\n" + \
+            "class SP(BP):\n    @property\n    def prop(self):\n        return 2\n", "m.SP.prop"
+    if inherit and owner == "function":
+        return "class K:\n    def __init__(self, a, b=2):\n        pass\n    def meth(self):\n        pass\nx = 1\n" + \
+            "class BF:\n    def f(self, a, b=1, *args, **kw):\n" + lit(8) + "        pass\n" + \
+            "class SF(BF):\n    def f(self, a, b=1, *args, **kw):\n        pass\n", "m.SF.f"
+    if inherit and owner == "variable":
+        return other + "class BV:\n    vv = 1\n" + lit(4) + "class SV(BV):\n    vv = 2\n", "m.SV.vv"
     if owner == "property":
         return other + "class P:\n    @property\n    def prop(self):\n" + lit(8) + "        return 1\n", "m.P.prop"
     if owner == "variable":
@@ -1558,6 +1607,10 @@ def oracle_document(ctx: Ctx, fmt: str, doc, ser, full: str, src: str, r) -> Non
                                 ctx.fail("field:type-of-constructor-parameter-in-class-docstring-hidden",
                                          {**inp, "field": [k, arg, f["type"]], "attr": r["attrs"].get(arg)},
                                          f"{fmt}: the type given for constructor parameter '{arg}' in the class docstring is shown nowhere and not reported")
+                            elif arg and any(g is not f and g["kind"] == k and g["arg"] == arg and g.get("type") for g in ser["fields"]):
+                                # the same name documented twice, each time with a type: two `type` fields for one name, the last wins
+                                ctx.fail("field:duplicate-field-first-text-silently-dropped", {**inp, "field": [k, arg, f["type"]], "cell": name},
+                                         f"{fmt}: two type fields for '{arg}': only the last one is shown, no report")
                             else:
                                 ctx.fail(f"field:type-not-shown:{k}:{fmt}", {**inp, "field": [k, arg, f["type"]], "cell": name}, "the field's type is not shown in its entry")
                     break
@@ -2001,6 +2054,52 @@ def impl_property(has_body: bool, fields: List[Tuple[str, int, bool]]) -> str:
     return "desc=%s type=%s other=%s" % (desc, typ or "-", ",".join(other) or "-")
 
 
+# ====================================================================== napoleon _get_min_indent / _dedent
+
+def stream_dedent(ctx: Ctx) -> None:
+    from pydoctor.napoleon.docstring import GoogleDocstring
+    g = GoogleDocstring("")
+    reqs, impls, pay = [], [], []
+    pool = ["", "", "x", "  y z", "    deep", "        deeper  ", " ", "   ", "\tt", "\u00a0n", "    Larger values are slower", "      lit = 1"]
+    cases = [["        literal", "", "    Larger values are slower"], ["   aligned", "normal"], [], [""], ["  "], ["    a", "  ", "      b"]]
+    for _ in range(1500 if ctx.quick else 30000):
+        cases.append([ctx.rng.choice(pool) for _ in range(ctx.rng.randint(0, 5))])
+    for lines in cases:
+        reqs.append(("epytext dedent " + " ".join(enc(l) for l in lines)).rstrip())
+        out = g._dedent(list(lines))
+        impls.append(("%d %d %s" % (g._get_min_indent(list(lines)), g._get_initial_indent(list(lines)), " ".join(enc(l) for l in out))))
+        pay.append({"dedent-lines": lines})
+        # direct oracle: the same number of columns from every line, and only white space
+        k = [len(a) - len(b) for a, b in zip(lines, out)]
+        if any(not a.endswith(b) or a[:len(a) - len(b)].strip() for a, b in zip(lines, out)) or \
+                len({x for x, a in zip(k, lines) if len(a) >= max(k, default=0)}) > 1:
+            ctx.fail("napoleon:dedent-cuts-text", {"dedent-lines": lines, "dedented": out}, "_dedent removes non-blank characters or different amounts")
+    ctx.compare("napoleon._get_min_indent/_dedent~Napoleon.dedent", reqs, impls, pay)
+    ctx.count("stream:napoleon-dedent", len(reqs))
+
+
+def impl_inherited_property(has_body: bool, fields: List[Tuple[str, int, bool]]) -> str:
+    """the parsed docstring an overriding property WITHOUT docstring gets from the base property"""
+    from pydoctor import model, epydoc2stan
+    tagname = {"r": "return", "t": "rtype", "o": "note"}
+    lines = "\n".join("        @%s:%s" % (tagname[k], (" TEXT%d" % t) if b else "") for k, t, b in fields)
+    src = ('class B:\n    @property\n    def p(self):\n        """\n%s%s\n        """\n        return 1\n'
+           'class S(B):\n    @property\n    def p(self):\n        return 2\n') % ("        Body.\n\n" if has_body else "", lines)
+    with contextlib.redirect_stdout(io.StringIO()):
+        system = model.System()
+        system.options.docformat = "epytext"
+        b = system.systemBuilder(system)
+        b.addModuleString(src, modname="m")
+        b.buildModules()
+        attr = system.allobjects["m.S.p"]
+        epydoc2stan.ensure_parsed_docstring(attr)
+    pd = attr.parsed_docstring
+    num = lambda s: (re.search(r"TEXT(\d+)", s).group(1) if re.search(r"TEXT(\d+)", s) else "?")
+    other = [num(str(f.body())) for f in (pd.fields if pd is not None else [])]
+    typ = num(str(attr.parsed_type)) if attr.parsed_type is not None else "-"
+    return "desc=- type=%s other=%s" % (typ, ",".join(other) or "-")
+
+
 def stream_property(ctx: Ctx) -> None:
     import itertools
     reqs, impls, pay = [], [], []
@@ -2019,6 +2118,21 @@ def stream_property(ctx: Ctx) -> None:
                         ctx.fail("field:%s-in-property-silently-dropped" % {"r": "return", "t": "rtype", "o": "note"}[k],
                                  {"property-fields": [list(f) for f in fields], "has_body": has_body, "shown": out},
                                  "a field of a property docstring is neither description, type nor kept field")
+    # the override without docstring: every field of the base docstring is there for FieldHandler (model: Property.inheritedView)
+    for has_body in (False, True):
+        for n in range(1, 4):
+            for kinds in itertools.product("rto", repeat=n):
+                fields = [(k, 40 + i, True) for i, k in enumerate(kinds)]
+                out = impl_inherited_property(has_body, fields)
+                reqs.append("epytext inherited %d %s" % (has_body, " ".join("%s.%d.%d" % f for f in fields)))
+                impls.append(out)
+                pay.append({"inherited-property-fields": [list(f) for f in fields], "has_body": has_body})
+                for k, t, _ in fields:
+                    if str(t) not in out:
+                        ctx.fail("inherited-property:return-only-docstring-not-inherited" if (not has_body and fields and any(k2 == "r" for k2, _, _ in fields)) else
+                                 "field:%s-lost-from-inherited-property-docstring" % {"r": "return", "t": "rtype", "o": "note"}[k],
+                                 {"inherited-property-fields": [list(f) for f in fields], "has_body": has_body, "shown": out},
+                                 "a field of the base property's docstring is missing from what the overriding property (no docstring) gets")
     ctx.compare("_handlePropertyDef~Property.handle", reqs, impls, pay)
     ctx.count("stream:property-fields", len(reqs))
     ctx.exhaustive = True
@@ -2111,8 +2225,10 @@ def check_document(ctx: Ctx, doc, nested: bool, i: int, tag: str = "doc") -> Non
     """one abstract document serialised to every format, rendered by the real code, judged by the direct oracle"""
     for fmt in FORMATS:
         ser = Ser(fmt).document(doc)
-        src, full = module_source(doc["owner"], ser["docstring"], doc.get("var_level", "module"))
+        src, full = module_source(doc["owner"], ser["docstring"], doc.get("var_level", "module"), bool(doc.get("inherit")))
         inp = {"docformat": fmt, "owner": full, "source": src}
+        if doc.get("inherit"):
+            ctx.count("doc-inherited:%s:%s" % (doc["owner"], fmt))
         try:
             r = render_doc(src, fmt, full)
         except Exception as e:
@@ -2196,9 +2312,74 @@ def corpus_documents() -> List[Dict[str, Any]]:
     docs.append(dict(base, owner="function", body=[("para", W("Price", "10\u00a0EUR"))], fields=[]))
     docs.append(dict(base, owner="property", body=[("para", W("The", "description"))], fields=[fld("return", typ="int"), fld("raise", "ValueError")]))
     docs.append(dict(base, owner="property", return_tag="returns", body=[("para", W("The", "description"))], fields=[fld("return")]))
+    # seeded C09-r3-1: google/numpy field descriptions with varying continuation indents
+    docs.append(dict(base, owner="function", body=[("para", W("Doc"))],
+                fields=[fld("param", "a", "int", body=W("The", "depth"), literal=["depth = 3", "    more"], after=W("values", "are", "slower")),
+                        fld("param", "b", body=W("First", "line", "text"), aligned=True),
+                        fld("raise", "ValueError", body=W("When", "bad"), literal=["x = 1"], after=W("values", "fail"))]))
+    # seeded C09-r3-2: inherited docstrings (property with description + rtype, method, class variable)
+    docs.append(dict(base, owner="property", inherit=True, body=[("para", W("The", "description"))], fields=[fld("return", typ="int"), fld("raise", "ValueError")]))
+    docs.append(dict(base, owner="property", inherit=True, return_tag="returns", body=[("para", W("The", "description"))], fields=[fld("return", typ="str", type_first=True)]))
+    docs.append(dict(base, owner="function", inherit=True, body=[("para", W("The", "description"))], fields=[fld("param", "a", "int"), fld("return", typ="str")]))
+    docs.append(dict(base, owner="variable", inherit=True, var_level="class", var_type="str", body=[("para", W("The", "description"))], fields=[fld("note")]))
     for level in ("module", "class", "instance"):
         docs.append(dict(base, owner="variable", var_level=level, var_type="str", body=[("para", W("The", "description"))], fields=[fld("note")]))
     return docs
+
+
+def corpus_sources() -> List[Dict[str, Any]]:
+    """reviewer-reported shapes as fixed sources: every listed token must be visible (page text, attribute docs, types) or the
+    object must be reported; `html_must` is a regex the rendered HTML must match"""
+    return [
+        dict(sig="field:duplicate-field-first-text-silently-dropped", fmt="epytext", owner="m.f",
+             src='def f(a):\n    """\n    D.\n\n    @return: FIRSTR\n    @return: SECONDR\n    """\n', tokens=["FIRSTR", "SECONDR"]),
+        dict(sig="field:duplicate-field-first-text-silently-dropped", fmt="epytext", owner="m.f",
+             src='def f(a):\n    """\n    D.\n\n    @rtype: FIRSTT\n    @rtype: SECONDT\n    @yield: FIRSTY\n    @yield: SECONDY\n    """\n',
+             tokens=["FIRSTT", "SECONDT", "FIRSTY", "SECONDY"]),
+        dict(sig="field:duplicate-field-first-text-silently-dropped", fmt="restructuredtext", owner="m.f",
+             src='def f(a):\n    """\n    D.\n\n    :type a: FIRSTA\n    :type a: SECONDA\n    """\n', tokens=["FIRSTA", "SECONDA"]),
+        dict(sig="field:duplicate-field-first-text-silently-dropped", fmt="epytext", owner="m.K",
+             src='class K:\n    """\n    D.\n\n    @ivar yy: FIRSTI\n    @ivar yy: SECONDI\n    """\n', tokens=["FIRSTI", "SECONDI"]),
+        dict(sig="field:ivar-and-inline-docstring:inline-text-silently-dropped", fmt="epytext", owner="m.K",
+             src='class K:\n    """\n    D.\n\n    @ivar zz: FROMCLASS\n    """\n    zz = 1\n    """INLINE text"""\n', tokens=["FROMCLASS", "INLINE"]),
+        dict(sig="rst:sphinx-role-prefix-stripped-from-text", fmt="restructuredtext", owner="m.f",
+             src='def f(a):\n    """\n    The option :data: is a plain word and ``:meth:`run```.\n\n    Lit::\n\n        :class:`X` stays\n    """\n',
+             tokens=[":data:", ":meth:", ":class:"]),
+        dict(sig="epytext:ordered-list-start-number-lost", fmt="epytext", owner="m.f",
+             src='def f(a):\n    """\n    P.\n\n      3. third\n      4. fourth\n    """\n', tokens=["third", "fourth"], html_must=r'<ol[^>]*start="3"'),
+        dict(sig="napoleon:type-spec-text-altered", fmt="google", owner="m.f",
+             src='def f(x):\n    """\n    Doc.\n\n    Args:\n        x (int, default=5): the x\n    """\n', tokens=["default=5"]),
+    ]
+
+
+def stream_corpus_sources(ctx: Ctx) -> None:
+    for c in corpus_sources():
+        r = render_doc(c["src"], c["fmt"], c["owner"])
+        visible = " ".join(text_of(dom(r["html"])).split()) + " " + " ".join(text_of(dom(r.get("own_type") or "")).split())
+        for a in r["attrs"].values():
+            visible += " " + " ".join(text_of(dom(a["html"])).split()) + " " + " ".join(text_of(dom(a["type"] or "")).split())
+        extra = {n: o for n, o in []}
+        # attributes named in the source but not in the fixed list of render_doc
+        missing = [t for t in c["tokens"] if t not in visible]
+        if c["owner"] == "m.K" and missing:
+            from pydoctor import model, epydoc2stan
+            from pydoctor.stanutils import flatten
+            with contextlib.redirect_stdout(io.StringIO()):
+                system = model.System()
+                system.options.docformat = c["fmt"]
+                b = system.systemBuilder(system)
+                b.addModuleString(c["src"], modname="m")
+                b.buildModules()
+                for sub in system.allobjects[c["owner"]].contents.values():
+                    visible += " " + " ".join(text_of(dom(flatten(epydoc2stan.format_docstring(sub)))).split())
+            missing = [t for t in c["tokens"] if t not in visible]
+        reported = bool(r["reports"]) and any(re.search(r"already|not displayed|docstring", l) for l in r["reports"])
+        bad = (missing and not reported) or ("html_must" in c and not re.search(c["html_must"], r["html"]))
+        ctx.case("corpus-source:" + c["src"], True, None)
+        ctx.count("corpus-source:%s:%s" % (c["sig"].split(":")[0], "fails" if bad else "holds"))
+        if bad:
+            ctx.fail(c["sig"], {"docformat": c["fmt"], "owner": c["owner"], "source": c["src"], "missing": missing, "reports": r["reports"][:3]},
+                     "%s: %s" % (c["sig"], ("not visible and not reported: %s" % missing) if missing else "rendered HTML lacks " + c.get("html_must", "")))
 
 
 def stream_corpus(ctx: Ctx) -> None:
@@ -2219,6 +2400,7 @@ def stream_corpus(ctx: Ctx) -> None:
 
 def run(ctx: Ctx) -> None:
     stream_corpus(ctx)
+    stream_corpus_sources(ctx)
     stream_tables(ctx)
     stream_target(ctx)
     stream_colorize(ctx)
@@ -2234,6 +2416,7 @@ def run(ctx: Ctx) -> None:
     stream_params(ctx)
     stream_property(ctx)
     stream_extract(ctx)
+    stream_dedent(ctx)
     stream_documents(ctx)
 
 
